@@ -125,9 +125,18 @@ structure RwState where
   out : List Str := []          -- rewritten lines, in order
   deriving Repr
 
+/-- newline, leading white space and comment removed (the three `re.sub` at the top of the loop) -/
+def strip (raw : Str) : Str := ((raw.filter (· != 10)).dropWhile Str.isSpace).takeWhile (· != 35)
+
+/-- `^Qualifiers\s*=\s*"([^"]*)"` (IGNORECASE) -/
+def qualLine (l : Str) : Bool :=
+  match kwEq sQualifiers l with
+  | some (34 :: r) => (r.dropWhile (· != 34)).head? == some 34
+  | _ => false
+
 /-- one iteration of the `for line in contents` loop of `_rewrite` -/
 def rewriteLine (st : RwState) (raw : Str) : Res RwState :=
-  let line := ((raw.filter (· != 10)).dropWhile Str.isSpace).takeWhile (· != 35)
+  let line := strip raw
   if line.isEmpty then .ok st else
   match kwEqCap sFile isWordCh line with
   | some cap =>
@@ -139,10 +148,7 @@ def rewriteLine (st : RwState) (raw : Str) : Res RwState :=
   match kwEqCap sAction isTokCh line with
   | some cap => if isInfix sSetup (Str.lower cap) then .ok st else .err .badTable
   | none =>
-  let qual : Bool := match kwEq sQualifiers line with
-    | some (34 :: r) => (r.dropWhile (· != 34)).head? == some 34
-    | _ => false
-  if qual then .ok st else
+  if qualLine line then .ok st else
   if kwLine sGroupC line then .ok { st with inGroup := true, cond := [] } else
   let flav := kwEqCap sFlavorKw isTokCh line
   -- Group … Common … End
